@@ -155,7 +155,9 @@ def pub_world(rng):
     elif r < 0.8:
         pd, pc = post(rng.choice((0, 2)))
         ad, ac = actor()
-        doc = {"type": rng.choice(["Announce", "Create", "Like", "Dislike"]), "actor": ad, "object": pd}
+        # (Lemmy announces a Create around the post: the inline Create is unwrapped)
+        inner = pd if rng.random() < 0.7 else {"type": "Create", "actor": {"type": "Person", "name": "someone"}, "object": pd}
+        doc = {"type": rng.choice(["Announce", "Create", "Like", "Dislike"]), "actor": ad, "object": inner}
         root = 2000 + pc
         it = dict(items[pc])
         it["actor"] = ac
